@@ -15,7 +15,7 @@ RULE = ("every layout of 0..3 disjoint profiler steps with even endpoints in [0,
         "non-contiguous numbering) x every set of <=D units placed at every integer position 0..9 (unit = host "
         "op | launch call with its kernel starting 1 or 3 later | kernel without launch call | event-synchronize "
         "call with its Event Sync record on stream -1 | host event whose name merely contains or starts with 'ProfilerStep' | "
-        "zero-duration op | op on a second host thread) x include_last_profiler_step in {False,True} x file order "
+        "zero-duration op | op on a second host thread | op or launch call on a second host thread running across a step boundary) x include_last_profiler_step in {False,True} x file order "
         "{as generated, reversed}; 2-rank slice with a skewed second rank; history slice: the same directory path held a different trace (no steps | other names | one step) that was loaded earlier in the same process. non-trivial = at least two steps and "
         "at least one event on each side of the cut-off, or an event on a step boundary")
 ASSUMPTIONS = [
@@ -54,6 +54,8 @@ def units(kind: str) -> List[List[Any]]:
         # host events whose names merely resemble a profiler step, a zero-duration op, an op on a second thread
         u += [["named", p, nm] for p in (1, 5, 9) for nm in ("my_ProfilerStep_hook", "ProfilerStepHook")]
         u += [["op0", p] for p in (0, 2, 4, 8)] + [["op_t2", p] for p in (1, 4, 9)]
+        # events of a second host thread that run across a step boundary (impossible on the step's own thread)
+        u += [["op_t2w", p] for p in (1, 3, 5, 7)] + [["launch_t2w", p] for p in (1, 3, 5, 7)]
     return u
 
 
@@ -74,6 +76,11 @@ def build(layout, us, skew=0, root_in_step=False) -> List[Dict[str, Any]]:
             evs.append(kineto.cpu_op("aten::zero", t0 + p, 0, ext=corr))
         elif u[0] == "op_t2":
             evs.append(kineto.cpu_op("aten::other_thread", t0 + p, 1, ext=corr, tid=101))
+        elif u[0] == "op_t2w":
+            evs.append(kineto.cpu_op("aten::other_thread_wide", t0 + p, 2, ext=corr, tid=101))
+        elif u[0] == "launch_t2w":
+            evs.append(kineto.runtime("cudaLaunchKernel", t0 + p, 2, corr, tid=101))
+            evs.append(kineto.kernel("kern_b", t0 + p + 2, 1, 7, corr))
         elif u[0] == "launch":
             evs.append(kineto.runtime("cudaLaunchKernel", t0 + p, 1, corr))
             evs.append(kineto.kernel("kern_a", t0 + p + u[2], 2, 7, corr))
